@@ -644,6 +644,7 @@ int main(int argc, char **argv)
 	else if (pair_mode) vk_call_mode = VC_POISON_REGS | VC_STACK;
 	else if (!strcmp(prop, "C19")) vk_call_mode = VC_POISON_REGS;
 	if (ref_run_kats(0)) { fprintf(stderr, "reference KATs failed\n"); return 2; }
+	if (vk_want_wtrap) vk_wtrap_enable();
 	vk_slot_init(&s_in, "in", DATA_MAX + 8192, 1);
 	vk_slot_init(&s_out, "out", DATA_MAX + 8192, 0);
 	vk_slot_init(&s_aad, "aad", 8192, 1);
